@@ -1,54 +1,87 @@
     impl zvt_builder::ZvtSerializer for SetTimeAndDate {
+        /// identity of the packet type (position in the frozen reply table), so that "which type does this variant
+        /// carry" is an obligation instead of a type error
+        open spec fn tid() -> int { 0 }
         uninterp spec fn zd_ok(b: Seq<u8>, v: Self) -> bool;
         #[verifier::external_body]
         fn zvt_deserialize(bytes: &[u8]) -> (r: zvt_builder::ZVTResult<(Self, &[u8])>) { unimplemented!() }
     }
     impl zvt_builder::ZvtSerializer for StatusInformation {
+        /// identity of the packet type (position in the frozen reply table), so that "which type does this variant
+        /// carry" is an obligation instead of a type error
+        open spec fn tid() -> int { 1 }
         uninterp spec fn zd_ok(b: Seq<u8>, v: Self) -> bool;
         #[verifier::external_body]
         fn zvt_deserialize(bytes: &[u8]) -> (r: zvt_builder::ZVTResult<(Self, &[u8])>) { unimplemented!() }
     }
     impl zvt_builder::ZvtSerializer for IntermediateStatusInformation {
+        /// identity of the packet type (position in the frozen reply table), so that "which type does this variant
+        /// carry" is an obligation instead of a type error
+        open spec fn tid() -> int { 2 }
         uninterp spec fn zd_ok(b: Seq<u8>, v: Self) -> bool;
         #[verifier::external_body]
         fn zvt_deserialize(bytes: &[u8]) -> (r: zvt_builder::ZVTResult<(Self, &[u8])>) { unimplemented!() }
     }
     impl zvt_builder::ZvtSerializer for CompletionData {
+        /// identity of the packet type (position in the frozen reply table), so that "which type does this variant
+        /// carry" is an obligation instead of a type error
+        open spec fn tid() -> int { 3 }
         uninterp spec fn zd_ok(b: Seq<u8>, v: Self) -> bool;
         #[verifier::external_body]
         fn zvt_deserialize(bytes: &[u8]) -> (r: zvt_builder::ZVTResult<(Self, &[u8])>) { unimplemented!() }
     }
     impl zvt_builder::ZvtSerializer for Abort {
+        /// identity of the packet type (position in the frozen reply table), so that "which type does this variant
+        /// carry" is an obligation instead of a type error
+        open spec fn tid() -> int { 4 }
         uninterp spec fn zd_ok(b: Seq<u8>, v: Self) -> bool;
         #[verifier::external_body]
         fn zvt_deserialize(bytes: &[u8]) -> (r: zvt_builder::ZVTResult<(Self, &[u8])>) { unimplemented!() }
     }
     impl zvt_builder::ZvtSerializer for PartialReversalAbort {
+        /// identity of the packet type (position in the frozen reply table), so that "which type does this variant
+        /// carry" is an obligation instead of a type error
+        open spec fn tid() -> int { 5 }
         uninterp spec fn zd_ok(b: Seq<u8>, v: Self) -> bool;
         #[verifier::external_body]
         fn zvt_deserialize(bytes: &[u8]) -> (r: zvt_builder::ZVTResult<(Self, &[u8])>) { unimplemented!() }
     }
     impl zvt_builder::ZvtSerializer for PrintLine {
+        /// identity of the packet type (position in the frozen reply table), so that "which type does this variant
+        /// carry" is an obligation instead of a type error
+        open spec fn tid() -> int { 6 }
         uninterp spec fn zd_ok(b: Seq<u8>, v: Self) -> bool;
         #[verifier::external_body]
         fn zvt_deserialize(bytes: &[u8]) -> (r: zvt_builder::ZVTResult<(Self, &[u8])>) { unimplemented!() }
     }
     impl zvt_builder::ZvtSerializer for PrintTextBlock {
+        /// identity of the packet type (position in the frozen reply table), so that "which type does this variant
+        /// carry" is an obligation instead of a type error
+        open spec fn tid() -> int { 7 }
         uninterp spec fn zd_ok(b: Seq<u8>, v: Self) -> bool;
         #[verifier::external_body]
         fn zvt_deserialize(bytes: &[u8]) -> (r: zvt_builder::ZVTResult<(Self, &[u8])>) { unimplemented!() }
     }
     impl zvt_builder::ZvtSerializer for Ack {
+        /// identity of the packet type (position in the frozen reply table), so that "which type does this variant
+        /// carry" is an obligation instead of a type error
+        open spec fn tid() -> int { 8 }
         uninterp spec fn zd_ok(b: Seq<u8>, v: Self) -> bool;
         #[verifier::external_body]
         fn zvt_deserialize(bytes: &[u8]) -> (r: zvt_builder::ZVTResult<(Self, &[u8])>) { unimplemented!() }
     }
     impl zvt_builder::ZvtSerializer for RequestForData {
+        /// identity of the packet type (position in the frozen reply table), so that "which type does this variant
+        /// carry" is an obligation instead of a type error
+        open spec fn tid() -> int { 9 }
         uninterp spec fn zd_ok(b: Seq<u8>, v: Self) -> bool;
         #[verifier::external_body]
         fn zvt_deserialize(bytes: &[u8]) -> (r: zvt_builder::ZVTResult<(Self, &[u8])>) { unimplemented!() }
     }
     impl zvt_builder::ZvtSerializer for CVendFunctionsEnhancedSystemInformationCompletion {
+        /// identity of the packet type (position in the frozen reply table), so that "which type does this variant
+        /// carry" is an obligation instead of a type error
+        open spec fn tid() -> int { 10 }
         uninterp spec fn zd_ok(b: Seq<u8>, v: Self) -> bool;
         #[verifier::external_body]
         fn zvt_deserialize(bytes: &[u8]) -> (r: zvt_builder::ZVTResult<(Self, &[u8])>) { unimplemented!() }
